@@ -8,6 +8,7 @@ import (
 	"fmt"
 	"io"
 	"runtime"
+	"strings"
 	"sync"
 	"sync/atomic"
 	"time"
@@ -40,9 +41,10 @@ type env struct {
 	reruns    map[int]int    // node id -> executions so far of a node with Rerun > 0
 	collected map[string]int // node key -> tasks collected by any run loop of the case (resumed runs included)
 	resumes   int
-	segs      []callRec // every call of the top-level runnable that has a task-manager trace (the first run and every resumed run), in order
-	subCalls  []callRec // the calls of the nested graph runs, in order of their start
-	pipes     []func()   // drains every Pipe the harness created (used after an aborted run)
+	segs      []callRec      // every call of the top-level runnable that has a task-manager trace (the first run and every resumed run), in order
+	subCalls  []callRec      // the calls of the nested graph runs, in order of their start
+	pipes     []func()       // drains every Pipe the harness created (used after an aborted run)
+	brOff     map[[2]int]int // (node, branch index) -> evaluations made by earlier calls on the same compiled runnable (prelude.go)
 }
 
 // callRec is one call of a runnable as its task manager shows it: the batches of collected tasks and
@@ -52,7 +54,9 @@ type callRec struct {
 	rr    [][]string // parallel to sched: the tasks of the batch that interrupted themselves
 }
 
-func newEnv(c *Case) *env { return &env{c: c, brLog: map[[2]int][][]int{}, reruns: map[int]int{}} }
+func newEnv(c *Case) *env {
+	return &env{c: c, brLog: map[[2]int][][]int{}, reruns: map[int]int{}, brOff: map[[2]int]int{}}
+}
 
 func (e *env) exec(idx int) int {
 	e.mu.Lock()
@@ -115,7 +119,7 @@ func (e *env) newProducer(name string) *producer {
 func (e *env) decide(node, bi int, b *BranchSpec) []int {
 	e.mu.Lock()
 	k := len(e.brLog[[2]int{node, bi}])
-	out := b.Table[k%len(b.Table)]
+	out := b.Table[(e.brOff[[2]int{node, bi}]+k)%len(b.Table)]
 	e.brLog[[2]int{node, bi}] = append(e.brLog[[2]int{node, bi}], out)
 	e.mu.Unlock()
 	schema.VerifC19Mark(fmt.Sprintf("branch:%s:%d", nodeName(node), bi))
@@ -204,7 +208,17 @@ func keyedLambda[I, O any](e *env, idx int) *compose.Lambda {
 			sr, sw := schema.Pipe[O](spec.Cap)
 			e.addPipe(drain(sr))
 			p := e.newProducer(name)
-			go produce(p, spec.Items, spec.Yield, func(i int) bool { return sw.Send(chunkOf[O](name, i), nil) }, sw.Close)
+			items := spec.Items
+			if spec.Tail == "empty" {
+				items = 0
+			}
+			go produce(p, items, spec.Yield, func(i int) bool {
+				if spec.Tail == "err" && i == items-1 {
+					var zero O
+					return sw.Send(zero, errPlannedChunk)
+				}
+				return sw.Send(chunkOf[O](name, i), nil)
+			}, sw.Close)
 			return sr, nil
 		})
 	case "inv":
@@ -240,6 +254,9 @@ func keyedLambda[I, O any](e *env, idx int) *compose.Lambda {
 }
 
 var errNodeFailed = errors.New("node failed on purpose")
+
+// the error chunk a producer with Tail "err" sends as its last item (tails.go)
+var errPlannedChunk = errors.New("c19 planned error chunk")
 
 // streamTool is a tool.StreamableTool whose every call starts a producer goroutine.
 type streamTool struct {
@@ -349,7 +366,12 @@ func lambdaOf(e *env, idx int) *compose.Lambda {
 			if rerun(e.exec(idx), in) {
 				return nil, compose.InterruptAndRerun
 			}
-			return schema.StreamReaderWithConvert(in, func(m M) (M, error) { return m, nil }), nil
+			return schema.StreamReaderWithConvert(in, func(m M) (M, error) {
+				if spec.Tail == "drop" {
+					return nil, schema.ErrNoValue
+				}
+				return m, nil
+			}), nil
 		})
 	case "ident":
 		return compose.TransformableLambda(func(ctx context.Context, in *schema.StreamReader[M]) (*schema.StreamReader[M], error) {
@@ -740,56 +762,78 @@ func handlerOf(prefix int) callbacks.Handler {
 
 // outcome of the caller's side of a run
 type runOut struct {
-	class  string // ok | compile_err | run_err | stream_err | panic | hang
-	msg    string
-	chunks int  // chunks the caller read
-	eof    bool // the caller saw io.EOF
+	class    string // ok | compile_err | run_err | stream_err | panic | hang
+	msg      string
+	chunks   int  // chunks the caller read
+	eof      bool // the caller saw io.EOF
+	errChunk bool // the caller met a planned error chunk and closed the output
 }
 
-func runCase(e *env) runOut {
+// buildCase compiles the case; class "" = built.
+func buildCase(e *env) (compose.Runnable[M, M], runOut) {
 	var r compose.Runnable[M, M]
 	var err error
 	if p := lib.Recover(func() { r, err = build(e) }); p != nil {
-		return runOut{class: "panic", msg: fmt.Sprint("build: ", p)}
+		return nil, runOut{class: "panic", msg: fmt.Sprint("build: ", p)}
 	}
 	if err != nil {
-		return runOut{class: "compile_err", msg: err.Error()}
+		return nil, runOut{class: "compile_err", msg: err.Error()}
 	}
-	done := make(chan runOut, 1)
+	return r, runOut{}
+}
+
+// runCalls calls the compiled runnable: once (reads[0] = how the caller reads), or, with several entries, that many
+// times at the same moment from different goroutines (prelude.go); the task-manager trace of everything that ran is
+// put into the environment.
+func runCalls(e *env, r compose.Runnable[M, M], reads []int) runOut {
+	done := make(chan runOut, len(reads))
 	compose.VerifC03Begin(0, true)
 	defer compose.VerifC03End()
-	go func() {
-		var out runOut
-		if p := lib.Recover(func() { out = callAndRead(e, r) }); p != nil {
-			out = runOut{class: "panic", msg: fmt.Sprint(p)}
-		}
-		done <- out
-	}()
-	select {
-	case out := <-done:
-		evs := compose.VerifC03Events()
-		var top []bool
-		e.scheds, top = schedulesOf(evs, c19Eager(e.c))
-		if len(e.scheds) > 0 {
-			e.sched = e.scheds[0].sched
-		}
-		for tm := range e.scheds {
-			if top[tm] {
-				e.segs = append(e.segs, e.scheds[tm])
-			} else {
-				e.subCalls = append(e.subCalls, e.scheds[tm])
+	var gate sync.WaitGroup
+	gate.Add(1)
+	for _, rd := range reads {
+		go func(rd int) {
+			gate.Wait()
+			var out runOut
+			if p := lib.Recover(func() { out = callAndRead(e, r, rd) }); p != nil {
+				out = runOut{class: "panic", msg: fmt.Sprint(p)}
 			}
-		}
-		e.collected = map[string]int{}
-		for _, ev := range evs {
-			if ev.Kind == "recv" {
-				e.collected[ev.Key]++
-			}
-		}
-		return out
-	case <-time.After(15 * time.Second):
-		return runOut{class: "hang", msg: "run or read did not return within 15s"}
+			done <- out
+		}(rd)
 	}
+	gate.Done()
+	var out runOut
+	timeout := time.After(15 * time.Second)
+	for i := range reads {
+		select {
+		case o := <-done:
+			if i == 0 || (out.class == "ok" && o.class != "ok") || o.class == "panic" {
+				out = o
+			}
+		case <-timeout:
+			return runOut{class: "hang", msg: "run or read did not return within 15s"}
+		}
+	}
+	evs := compose.VerifC03Events()
+	var top []bool
+	e.scheds, top = schedulesOf(evs, c19Eager(e.c))
+	if len(e.scheds) > 0 {
+		e.sched = e.scheds[0].sched
+	}
+	for tm := range e.scheds {
+		if top[tm] {
+			e.segs = append(e.segs, e.scheds[tm])
+		} else {
+			e.subCalls = append(e.subCalls, e.scheds[tm])
+		}
+	}
+	e.collected = map[string]int{}
+	for _, ev := range evs {
+		if ev.Kind == "recv" {
+			e.collected[ev.Key]++
+		}
+	}
+	return out
 }
 
 func c19Eager(c *Case) bool { return c.Mode == "workflow" }
@@ -858,7 +902,7 @@ func resumeInput(e *env, k int) *schema.StreamReader[M] {
 	return in
 }
 
-func callAndRead(e *env, r compose.Runnable[M, M]) runOut {
+func callAndRead(e *env, r compose.Runnable[M, M], read int) runOut {
 	c := e.c
 	ctx := context.Background()
 	var opts []compose.Option
@@ -932,10 +976,16 @@ func callAndRead(e *env, r compose.Runnable[M, M]) runOut {
 		return runOut{class: "run_err", msg: err.Error()}
 	}
 	out := runOut{class: "ok"}
-	for c.Read < 0 || out.chunks < c.Read {
+	for read < 0 || out.chunks < read {
 		_, err := sr.Recv()
 		if errors.Is(err, io.EOF) {
 			out.eof = true
+			break
+		}
+		if err != nil && strings.Contains(err.Error(), errPlannedChunk.Error()) {
+			// an error chunk a producer of the case sent on purpose (tails.go): the caller stops reading and
+			// closes the output - "closed early by the caller"
+			out.errChunk = true
 			break
 		}
 		if err != nil {
